@@ -90,6 +90,11 @@ impl Regex {
         ReMatcher::new(&self.re_program, search)
     }
 
+    #[cfg(regexml_verif)]
+    pub(crate) fn verif_program(&self) -> &ReProgram {
+        &self.re_program
+    }
+
     #[cfg(test)]
     pub(crate) fn path(&self, s: &str) -> Operation {
         self.re_program.path(s)
